@@ -46,6 +46,11 @@ def spelled(v):
         fo = enc.build_fmtstr([[t, [2 if j == i else c for j, c in enumerate(a)]] for t, a in v["v"]])
         str(fo), hash(fo), fo == fo
         return fmtstr(fo, **{enc.STYLE_ORDER[i - 2]: False})
+    if v["k"] == "c":
+        # a piece cut out of a value that was rendered and hashed before the cut
+        parent = enc.build_fmtstr(v["pv"])
+        str(parent), hash(parent)
+        return parent[v["a"]:v["b"]]
     if v["k"] != "r":
         return enc.build_value(v)
     s = str(enc.build_fmtstr(v["v"]))
@@ -71,7 +76,7 @@ class C19(PureCheck):
     warm_every = 3
     rule = ("pool of FmtStr values from Layouts(2,2) over {plain, red, bold+on_blue, red+bold=False} (same text/different "
             "formatting, same display/different run boundaries, empty runs, explicit False) plus every plain str of the pool's "
-            "texts and plain strs carrying escape sequences (the value's own terminal string and 6 other spellings of it), and values derived from an already rendered styled value by switching the style off; all ordered pairs (quick: a sampled pool of 150 -> all pairs) with ==, !=, reversed ==, hash, set and dict "
+            "texts and plain strs carrying escape sequences (the value's own terminal string and 6 other spellings of it), values derived from an already rendered styled value by switching the style off, and pieces cut out of an already rendered value (texts spelled like a fragment of their own escape sequence included); all ordered pairs (quick: a sampled pool of 150 -> all pairs) with ==, !=, reversed ==, hash, set and dict "
             "membership recorded together with both terminal strings; repr round trip (eval in a namespace holding only the "
             "fmtfuncs names) for every layout with >=1 run and texts with quotes/escapes. distinct_nontrivial = distinct pairs "
             "whose texts are equal but run lists differ, or repr cases with >=1 formatted run")
@@ -115,6 +120,19 @@ class C19(PureCheck):
                 for other in ({"k": "f", "v": tgt}, {"k": "f", "v": on}, {"k": "r", "v": tgt, "variant": 0}, d):
                     yield {"op": "eq", "x": d, "y": other}
                     yield {"op": "eq", "x": other, "y": d}
+        # pieces cut out of an already rendered value - the run's text spelled like a fragment of its own escape sequence
+        # or not - against the same runs built directly, their terminal string and themselves
+        for text, a in (("31", [2, 0, 0, 0, 0, 0, 0, 0]), ("1m", [0, 0, 2, 0, 0, 0, 0, 0]), ("[44", [0, 5, 0, 0, 0, 0, 0, 0]),
+                        ("ab", [2, 0, 2, 0, 0, 0, 0, 0]), ("[3", [2, 0, 0, 0, 0, 0, 0, 0]), ("4m", [0, 0, 0, 0, 0, 2, 0, 0])):
+            t = [ord(ch) for ch in text]
+            for (lo, hi) in ((0, 1), (1, len(t)), (0, len(t) - 1)):
+                for tail in ([], [[[120], [0] * 8]]):
+                    pv = [[list(t), list(a)]] + tail
+                    tgt = [[t[lo:hi], list(a)]] + (tail if hi == len(t) and False else [])
+                    c = {"k": "c", "v": tgt, "pv": pv, "a": lo, "b": hi}
+                    for other in ({"k": "f", "v": tgt}, {"k": "r", "v": tgt, "variant": 0}, c):
+                        yield {"op": "eq", "x": c, "y": other}
+                        yield {"op": "eq", "x": other, "y": c}
         # values of different concrete classes (an application's subclass against the base class and against a str)
         for l in (fpool[:40] if tier == "quick" else fpool[:200]):
             for other in ({"k": "f", "v": l}, {"k": "r", "v": l, "variant": 0}, {"k": "f", "v": l[::-1]}):
